@@ -279,18 +279,61 @@ func gaterRule(c *rt.Ctx) {
 			pos = badPos
 		}
 		c.Check("NewDutyGater slot arithmetic stays unsigned 64-bit", pos, bad == "", bad+": a slot >= 2^63 wraps and passes the future-epoch window")
-		// every `return true`-capable return is the comparison dutyEpoch <= currentEpoch + allowed on values derived from the slot
-		good := false
+		// every return that can yield true is the upper-bound comparison of a slot-derived value itself, or lies on
+		// the "slot-derived value <= bound" edge of a branch on such a comparison (any spelling)
+		good := true
+		nTrue := 0
 		for _, r := range an.Returns(lit) {
-			if bin, ok := an.Unwrap(r.Results[0]).(*ssa.BinOp); ok && (bin.Op == token.LEQ || bin.Op == token.GEQ) {
+			v := an.Unwrap(returnValues(r)[0])
+			if k, ok := v.(*ssa.Const); ok && k.Value != nil && k.Value.ExactString() == "false" {
+				continue
+			}
+			nTrue++
+			okRet := false
+			if bin, ok := v.(*ssa.BinOp); ok && (bin.Op == token.LEQ || bin.Op == token.GEQ || bin.Op == token.LSS || bin.Op == token.GTR) {
 				x, y := bin.X, bin.Y
-				if bin.Op == token.GEQ {
+				if bin.Op == token.GEQ || bin.Op == token.GTR {
 					x, y = y, x
 				}
 				if usesSlot(x, duty, 0) && !usesSlot(y, duty, 0) {
-					good = true
+					okRet = true
 				}
 			}
+			if !okRet {
+				for _, in := range an.Instrs(lit, false) {
+					val, isVal := in.(ssa.Value)
+					if !isVal || !usesSlot(val, duty, 0) {
+						continue
+					}
+					for _, cd := range an.CondsOn(lit, val) {
+						if cd.Other == nil || usesSlot(cd.Other, duty, 0) {
+							continue
+						}
+						var pass *ssa.BasicBlock
+						switch cd.Op {
+						case token.LEQ, token.LSS:
+							pass = cd.Succ(true)
+						case token.GTR, token.GEQ:
+							pass = cd.Succ(false)
+						default:
+							continue
+						}
+						fail := cd.If.Block().Succs[0]
+						if fail == pass {
+							fail = cd.If.Block().Succs[1]
+						}
+						if (pass == r.Block() || pass.Dominates(r.Block())) && !an.CanReach(fail, r.Block(), nil) {
+							okRet = true
+						}
+					}
+				}
+			}
+			if !okRet {
+				good = false
+			}
+		}
+		if nTrue == 0 {
+			good = false
 		}
 		c.Check("NewDutyGater admits only dutyEpoch <= current + allowed", lit.Pos(), good, "the gater's verdict is not the upper-bound comparison of the duty's epoch")
 	})
